@@ -335,6 +335,9 @@ def guard_cases(ctx, scale):
             for c in range(0, cap - n + 2):
                 for ii in range(0, n + 1):
                     out.append('gl insert %d %d %d %d %d' % (n, cap, i, c, ii))
+            for c in range(0, cap - n + 4):          # Array::Insert itself: also counts that force a reallocation
+                for ii in range(0, n + 1):
+                    out.append('gl ainsert %d %d %d %d %d' % (n, cap, i, c, ii))
     return out
 
 
